@@ -12,8 +12,12 @@
 (*      hanging over its parent's edge, negative and overflowing origins).  *)
 (* MC_Surface_u16.cfg instantiates the transcription with the arithmetic of *)
 (* the code as found (uint16, row <= Height): TLC must refute AddrConforms. *)
+(*  (3) The same for trees with wide graphemes (WTrees).  MC_Surface_wide   *)
+(*      .cfg instantiates the painter as found (WideFix = FALSE: a wide     *)
+(*      cell whose right half was painted over stays in the screen buffer): *)
+(*      TLC must refute PaintConforms.                                      *)
 EXTENDS Integers, Sequences, FiniteSets, TLC
-CONSTANTS Bits, RowIncl, RootClip, Sizes, Coords, Rows, Cols, XS, YS, WS, HS, ZS, GXS
+CONSTANTS Bits, RowIncl, RootClip, WideFix, Sizes, Coords, Rows, Cols, XS, YS, WS, HS, ZS, GXS
 
 O == INSTANCE Surface
 I == INSTANCE SurfaceImpl
@@ -26,7 +30,7 @@ AddrCases == {x \in [w : Sizes, h : Sizes, c : Coords, r : Coords] : x.w <= 1000
 NoCase == [w |-> 0, h |-> 0, c |-> 0, r |-> 0]
 
 Leaf(w, h, id) == [w |-> w, h |-> h, fg |-> id,
-                   cells |-> IF w > 0 /\ h > 0 THEN <<<<0, 0, id>>, <<w - 1, h - 1, id + 10>>>> ELSE <<>>,
+                   cells |-> IF w > 0 /\ h > 0 THEN <<<<0, 0, id, 1>>, <<w - 1, h - 1, id + 10, 1>>>> ELSE <<>>,
                    kids |-> <<>>]
 Kid(x, y, z, s) == [x |-> x, y |-> y, z |-> z, s |-> s]
 
@@ -38,8 +42,32 @@ Trees ==
    : x \in XS, y \in YS, w \in WS, h \in HS, z \in ZS, gx \in GXS, rw \in {Cols - 1, Cols + 1}, first \in BOOLEAN}
 NoTree == Leaf(0, 0, 0)
 
+(* Trees with wide graphemes (one row, WCols columns): a root with a wide   *)
+(* cell of its own, a child A holding narrow (n) and wide (W) cells in      *)
+(* every arrangement of four columns, and a child B (narrow, wide, mixed or *)
+(* unwritten) at every column, below or above A, in either list order: B    *)
+(* (or A) lands on the left half, the right half or both halves of a wide   *)
+(* cell of the surface under it.  Wide cells never hang over the edge of    *)
+(* their surface, and every surface is inside the root (Surface!Want has    *)
+(* nothing to say otherwise).                                               *)
+WCols == 6
+N(c, id) == <<c, 0, id, 1>>
+W(c, id) == <<c, 0, id, 2>>
+APats == {<<W(0, 20), W(2, 21)>>, <<N(0, 22), W(1, 20), N(3, 23)>>, <<N(0, 22), N(1, 23), W(2, 20)>>,
+          <<W(0, 20), N(2, 22), N(3, 23)>>, <<N(0, 22), N(1, 23), N(2, 24), N(3, 25)>>}
+BPats == {[w |-> 1, cells |-> <<N(0, 30)>>], [w |-> 2, cells |-> <<W(0, 31)>>],
+          [w |-> 3, cells |-> <<N(0, 30), W(1, 31)>>], [w |-> 3, cells |-> <<W(0, 31), N(2, 30)>>],
+          [w |-> 2, cells |-> <<>>]}
+WTree(pa, pb, x, z, first) ==
+  LET ka == Kid(1, 0, 0, [w |-> 4, h |-> 1, fg |-> 2, cells |-> pa, kids |-> <<>>])
+      kb == Kid(x, 0, z, [w |-> pb.w, h |-> 1, fg |-> 3, cells |-> pb.cells, kids |-> <<>>])
+  IN [w |-> WCols, h |-> 1, fg |-> 1, cells |-> <<W(0, 10), N(2, 11), N(3, 12), W(4, 13)>>,
+      kids |-> IF first THEN <<ka, kb>> ELSE <<kb, ka>>]
+WTrees == UNION {{WTree(pa, pb, x, z, first) : pa \in APats, x \in 0..(WCols - pb.w), z \in {-1, 1}, first \in BOOLEAN}
+                 : pb \in BPats}
+
 Init == \/ a \in AddrCases /\ tr = NoTree
-        \/ a = NoCase /\ tr \in Trees
+        \/ a = NoCase /\ tr \in Trees \cup WTrees
 Next == UNCHANGED vars
 Spec == Init /\ [][Next]_vars
 
@@ -66,5 +94,12 @@ AddrConforms ==
   /\ I!ImplLen(a.w, a.h) >= O!Cells(a.w, a.h)
   /\ LET res == I!ImplWrite(a.w, a.h, a.c, a.r)
      IN ~res.panic /\ res.changed = O!WriteEffect(a.w, a.h, a.c, a.r)
-PaintConforms == I!ImplScreen(tr, Rows, Cols) = O!Screen(tr, Rows, Cols)
+IsWide == tr.w = WCols               \* the roots of Trees are Cols - 1 or Cols + 1 wide
+ScrRows == IF IsWide THEN 1 ELSE Rows
+ScrCols == IF IsWide THEN WCols ELSE Cols
+PaintConforms ==
+  LET want == O!Want(tr, ScrRows, ScrCols)
+  IN O!Judged(want, ScrRows, ScrCols) => O!ScreenConforms(I!ImplScreen(tr, ScrRows, ScrCols), want, ScrRows, ScrCols)
+(* the wide family is inside what the oracle states (nothing is skipped) *)
+WideJudged == IsWide => O!Judged(O!Want(tr, 1, WCols), 1, WCols)
 =============================================================================
